@@ -486,6 +486,14 @@ TRUSTED_BASE = [
 ]
 
 
+class ImplementationPanic(Exception):
+    """the code under test panicked outside any step (while the harness was setting a scenario up through the crate's own
+    constructors): not a fault of the machinery — the scenario is the failing input"""
+    def __init__(self, message, scenario, where):
+        super().__init__(message)
+        self.scenario, self.where = scenario, where
+
+
 class Result:
     def __init__(self, prop, tier, seed):
         self.prop, self.tier, self.seed = prop, tier, seed
